@@ -126,6 +126,18 @@ DOMAIN = {"fixes.remove_dead_ifs": no_false_if_with_elif, "fixes.swap_if_else": 
           "fixes.move_before_loop": flat_loops}
 
 
+LAYOUT_UNITS = ["  ", "\t", "   "]
+
+
+def relayout_src(src: str, unit: str) -> str:
+    """printed MiniPy programs use 4 blanks per level and have no string literals: re-indent every line"""
+    out = []
+    for line in src.split("\n"):
+        body = line.lstrip(" ")
+        out.append(unit * ((len(line) - len(body)) // 4) + body)
+    return "\n".join(out)
+
+
 def real_rule(mods, name):
     m, f = name.split(".")
     return getattr(mods[m], f)
@@ -741,6 +753,7 @@ def check(run: common.Run):
 
     # ---- rule correspondence
     rule_items = []          # (k, name, p, src, out, q)
+    layout_fail = []
     impl_problems = []
     fired = Counter()
     for name, k in RULES.items():
@@ -760,6 +773,24 @@ def check(run: common.Run):
             if q != p:
                 fired[name] += 1
                 hist[f"fired:{name}"] += 1
+                # layout independence: the same program written with another indentation unit must be rewritten to
+                # the same tree (hunt C01-b-13 / C15-7: textual dedent by four blanks)
+                if fired[name] % (7 if quick else 2) == 0:
+                    unit = LAYOUT_UNITS[(fired[name] // 7) % len(LAYOUT_UNITS)]
+                    src2 = relayout_src(src, unit)
+                    try:
+                        out2 = apply_real(mods, name, src2)
+                        q2 = M.parse_prog(out2)
+                    except Exception as ex:  # noqa
+                        out2, q2 = None, ("raised-or-unparsable", type(ex).__name__, str(ex)[:200])
+                    hist[f"layout-variants:{name}"] += 1
+                    if q2 == p:
+                        # the rule does not fire in this layout (the text back end could not splice its 4-blank
+                        # unparse into the file): a missed rewrite, not a behaviour change
+                        hist[f"layout-not-applied:{name}"] += 1
+                    elif q2 != q:
+                        layout_fail.append({"rule": name, "program": p, "source": src2, "output": out2,
+                                            "expected_tree_from_4_space_layout": out, "parsed": q2, "unit": repr(unit)})
             elif quick and p in rnds_set:
                 # quick tier: keep only a quota of random programs on which the rule does nothing
                 unfired_random += 1
@@ -848,6 +879,25 @@ def check(run: common.Run):
     for e in (e1 + e2 + e3)[:3]:
         common.log(f"model evaluation failed: {e}")
     failing_inputs = 0
+    n_layout_all = len(layout_fail)
+    layout_fail = [c for c in layout_fail
+                   if isinstance(c["parsed"], tuple) or oracle_differs(c["program"], c["parsed"], 3)]
+    hist["layout-different-but-equivalent"] = n_layout_all - len(layout_fail)
+    for c in layout_fail[:4]:
+        d = None
+        if not isinstance(c["parsed"], tuple):
+            d = oracle_differs(c["program"], c["parsed"], 3)
+        elif c["output"]:
+            try:
+                compile(c["output"], "<out>", "exec")
+            except SyntaxError as ex:
+                d = {"after": "SyntaxError: " + str(ex)}
+        failing_inputs += 1 if d else 0
+        run.violation({"kind": "property-oracle" if d else "rule-correspondence", "site": c["rule"], "source": c["source"],
+                       "output": c["output"], "diff": d, "indentation_unit": c["unit"],
+                       "explanation": "the real rule rewrites the same program differently when it is indented with "
+                                      "another unit than four blanks" + ("; the result behaves differently / does not compile"
+                                                                          if d else "")}, bool(d))
     for c in oracle_fail[:5]:
         failing_inputs += 1
         run.violation({"kind": "property-oracle", "site": c["rule"], **c,
@@ -951,7 +1001,7 @@ def check(run: common.Run):
                     "exceptions raised by opaque calls"],
         sweep=sw["summary"],
         correspondence_disagreements=len(rule_fail) + len(bl_fail) + len(sem_fail) + len(impl_problems),
-        property_oracle_failures=len(oracle_fail) + len(sw["failures"]),
+        property_oracle_failures=len(oracle_fail) + len(sw["failures"]) + len(layout_fail),
         trusted_base=common.TRUSTED_BASE_COMMON + [
             "MiniPyModel.exec is the reference semantics (a definition), validated against CPython on printed programs",
             "the abstraction argument: opaque calls/tests are uninterpreted events whose results come from an oracle "
